@@ -19,10 +19,8 @@ import (
 	"context"
 	"crypto/sha256"
 	"encoding/binary"
-	"encoding/json"
 	"errors"
 	"fmt"
-	"io"
 	"math/rand"
 	"net/netip"
 	"os"
@@ -62,8 +60,6 @@ type obs struct {
 	err string
 }
 
-type stuckError struct{ stage string }
-
 // guard runs fn on its own goroutine, turns a panic of the code under test into a violation and
 // reports a goroutine that does not come back.  It returns false when fn did not complete.
 func (x *exec) guard(stage string, fn func()) bool {
@@ -99,8 +95,6 @@ func (x *exec) guard(stage string, fn func()) bool {
 		x.violation(panicKey(x.c.Ep, stage), fmt.Sprintf("%s: %s panicked: %v\n%s", x.c.Ep, stage, e.p, st))
 		return false
 	case <-time.After(watchdog):
-		buf := make([]byte, 1<<16)
-		_ = buf
 		x.violation(x.c.Ep+"/stuck", fmt.Sprintf("%s: %s did not return within %s although the peer had sent everything and closed", x.c.Ep, stage, watchdog))
 		return false
 	}
@@ -364,10 +358,6 @@ func (x *exec) downlink(buf []byte, src netip.AddrPort, start, length int) {
 
 // ---------------------------------------------------------------- test entry
 
-type inputCases struct {
-	Cases []caseJ `json:"cases"`
-}
-
 func TestCases(t *testing.T) {
 	in, err := vio.ReadInput()
 	if err != nil {
@@ -592,10 +582,3 @@ func cutTo(b []byte, have int) []byte {
 	}
 	return b
 }
-
-func mustJSON(v any) string {
-	b, _ := json.Marshal(v)
-	return string(b)
-}
-
-var _ = io.EOF
